@@ -40,6 +40,7 @@ type Step struct {
 type Hist struct {
 	Pool  []spec.V `json:"pool"`
 	Sets  [][]int  `json:"sets,omitempty"` // initial ValueSets as indices into the element pool
+	Kinds []int    `json:"kinds,omitempty"` // element kind of each initial ValueSet: 0 numbers, 1 capsules without a hash key
 	Steps []Step   `json:"steps"`
 }
 
@@ -52,6 +53,7 @@ type live struct {
 type vset struct {
 	s     cty.ValueSet
 	model []string // sorted fingerprints of the members
+	kind  int      // 0 numbers, 1 capsules
 }
 
 type state struct {
@@ -77,8 +79,8 @@ func setPrints(s cty.ValueSet) []string {
 	return out
 }
 
-func (st *state) pushSet(s cty.ValueSet) {
-	st.sets = append(st.sets, &vset{s: s, model: setPrints(s)})
+func (st *state) pushSet(s cty.ValueSet, kind int) {
+	st.sets = append(st.sets, &vset{s: s, model: setPrints(s), kind: kind})
 }
 
 func eqStrings(a, b []string) bool {
@@ -161,15 +163,29 @@ var setElems = func() []spec.V {
 	return out
 }()
 
-var builtElems []cty.Value
+var builtElems [2][]cty.Value
 
-func elems() []cty.Value {
-	if builtElems == nil {
+// elems returns the candidate members for sets of the given kind. Kind 1 is
+// values of a capsule type without a hash key: they all share one hash bucket
+// and are equal by pointer identity only, so Remove really removes from the
+// middle of a multi-member bucket.
+func elems(kind int) []cty.Value {
+	if builtElems[0] == nil {
 		for _, e := range setElems {
-			builtElems = append(builtElems, spec.MustBuild(e))
+			builtElems[0] = append(builtElems[0], spec.MustBuild(e))
+		}
+		for i := 0; i < 8; i++ {
+			builtElems[1] = append(builtElems[1], spec.MustBuild(spec.V{T: spec.CapsuleT("A"), St: spec.Known, Cap: i}))
 		}
 	}
-	return builtElems
+	return builtElems[kind%2]
+}
+
+func elemType(kind int) cty.Type {
+	if kind%2 == 1 {
+		return spec.CapA
+	}
+	return cty.Number
 }
 
 // ---------------------------------------------------------------- interpreter
@@ -183,12 +199,16 @@ func runHistory(c *facet.Ctx, h Hist) error {
 		}
 		st.push(v, "pool")
 	}
-	for _, idxs := range h.Sets {
-		s := cty.NewValueSet(cty.Number)
-		for _, i := range idxs {
-			s.Add(elems()[mod(i, len(elems()))])
+	for si, idxs := range h.Sets {
+		kind := 0
+		if si < len(h.Kinds) {
+			kind = h.Kinds[si] % 2
 		}
-		st.pushSet(s)
+		s := cty.NewValueSet(elemType(kind))
+		for _, i := range idxs {
+			s.Add(elems(kind)[mod(i, len(elems(kind)))])
+		}
+		st.pushSet(s, kind)
 	}
 	if f := st.invariant(-1); f != nil {
 		return f
@@ -469,17 +489,23 @@ func (st *state) vsStep(s Step) {
 	name := opsNames[mod(s.N, len(opsNames))]
 	if len(st.sets) == 0 || name == "new" {
 		st.log = append(st.log, "vs new")
-		st.pushSet(cty.NewValueSet(cty.Number))
+		st.pushSet(cty.NewValueSet(elemType(s.B)), s.B%2)
 		return
 	}
 	ai, bi := mod(s.A, len(st.sets)), mod(s.B, len(st.sets))
 	a, b := st.sets[ai], st.sets[bi]
-	x := elems()[mod(s.C, len(elems()))]
+	x := elems(a.kind)[mod(s.C, len(elems(a.kind)))]
+	if a.kind != b.kind {
+		switch name {
+		case "union", "intersection", "subtract", "symdiff":
+			return // sets of different element types cannot be combined
+		}
+	}
 	st.log = append(st.log, fmt.Sprintf("vs %s(S%d,S%d,%#v)", name, ai, bi, x))
 	switch name {
 	case "add":
 		before := a.model
-		if bucketOfUnknowns(a.s) >= 3 {
+		if bucketOfUnknowns(a.s) >= 3 || (a.kind == 1 && a.s.Length() >= 3) {
 			st.flags["add-into-big-bucket"] = true
 			if st.flags["copied"] {
 				st.flags["copy-then-add-big-bucket"] = true
@@ -497,6 +523,9 @@ func (st *state) vsStep(s Step) {
 	case "remove":
 		before := a.model
 		members := a.s.Values()
+		if st.flags["copied"] && a.kind == 1 && len(members) >= 2 {
+			st.flags["copy-then-add-big-bucket"] = true // removal inside a shared multi-member bucket counts as well
+		}
 		a.s.Remove(x)
 		after := setPrints(a.s)
 		switch {
@@ -514,15 +543,15 @@ func (st *state) vsStep(s Step) {
 		}
 	case "copy":
 		st.flags["copied"] = true
-		st.pushSet(a.s.Copy())
+		st.pushSet(a.s.Copy(), a.kind)
 	case "union":
-		st.pushSet(a.s.Union(b.s))
+		st.pushSet(a.s.Union(b.s), a.kind)
 	case "intersection":
-		st.pushSet(a.s.Intersection(b.s))
+		st.pushSet(a.s.Intersection(b.s), a.kind)
 	case "subtract":
-		st.pushSet(a.s.Subtract(b.s))
+		st.pushSet(a.s.Subtract(b.s), a.kind)
 	case "symdiff":
-		st.pushSet(a.s.SymmetricDifference(b.s))
+		st.pushSet(a.s.SymmetricDifference(b.s), a.kind)
 	case "tovalue":
 		st.push(cty.SetValFromValueSet(a.s), "SetValFromValueSet")
 		st.flags["set-value-from-valueset"] = true
@@ -530,8 +559,12 @@ func (st *state) vsStep(s Step) {
 		for i := len(st.lives) - 1; i >= 0; i-- {
 			l := st.lives[mod(i+s.C, len(st.lives))]
 			u, _ := l.v.Unmark()
-			if u.Type().Equals(cty.Set(cty.Number)) && u.IsKnown() && !u.IsNull() {
-				st.pushSet(u.AsValueSet())
+			if (u.Type().Equals(cty.Set(cty.Number)) || u.Type().Equals(cty.Set(spec.CapA))) && u.IsKnown() && !u.IsNull() {
+				kind := 0
+				if u.Type().Equals(cty.Set(spec.CapA)) {
+					kind = 1
+				}
+				st.pushSet(u.AsValueSet(), kind)
 				st.flags["copied"] = true
 				break
 			}
@@ -574,6 +607,8 @@ func genHist(setHeavy bool) func(t *rapid.T) Hist {
 				h.Pool = append(h.Pool, gen.Value(spec.Number, vo).Draw(t, "num"))
 			case 1:
 				h.Pool = append(h.Pool, gen.Value(spec.Set(spec.Number), gen.ValOpts{Unknown: true, Simple: true, MaxElems: 4}).Draw(t, "numset"))
+			case 2:
+				h.Pool = append(h.Pool, gen.Value(spec.Set(spec.CapsuleT("A")), gen.ValOpts{MaxElems: 4}).Draw(t, "capset"))
 			default:
 				h.Pool = append(h.Pool, gen.AnyValue(to, vo).Draw(t, "val"))
 			}
@@ -589,6 +624,7 @@ func genHist(setHeavy bool) func(t *rapid.T) Hist {
 				idxs = append(idxs, rapid.IntRange(0, len(setElems)-1).Draw(t, "elem"))
 			}
 			h.Sets = append(h.Sets, idxs)
+			h.Kinds = append(h.Kinds, rapid.IntRange(0, 1).Draw(t, "setkind"))
 		}
 		nsteps := rapid.IntRange(3, 14).Draw(t, "nsteps")
 		kinds := []string{"op", "op", "conv", "refine", "acc", "acc", "acc", "ctor", "ctor", "vs", "vs"}
@@ -622,7 +658,7 @@ func init() {
 	})
 	facet.Register(facet.F[Hist]{
 		Prop: "C20", Name: "history/set-copy", Quick: 15000, Thorough: 150000, Shards: 4,
-		Rule: "as history/fingerprints but dominated by ValueSet steps (new/add/remove/copy/union/intersection/subtract/symmetric difference, wrapping as a set value, unwrapping a set value) over members that share one hash bucket (unknown numbers with distinct refinements) or must coalesce (equal numbers built by different routes); non-trivial = an Add into a bucket of >= 3 after a Copy, or a mutate-after-accessor step",
+		Rule: "as history/fingerprints but dominated by ValueSet steps (new/add/remove/copy/union/intersection/subtract/symmetric difference, wrapping as a set value, unwrapping a set value) over members that share one hash bucket (unknown numbers with distinct refinements; values of a capsule type without a hash key, which Remove can take out of the middle of the bucket) or must coalesce (equal numbers built by different routes); non-trivial = an Add into a bucket of >= 3 after a Copy, or a mutate-after-accessor step",
 		Gen:  genHist(true), Check: runHistory,
 	})
 }
